@@ -8,7 +8,7 @@ Real code: ppci.irutils.print_module -> read_module -> print_module, compared
 Model: Model.IRText (printer, tokenizer, recursive-descent reader over the shared construction
 layer Model.IRBuild) behind Drivers/C15.lean; the model's text must equal ppci's text character
 by character, the module the model reads from ppci's text must equal the one ppci reads, the model's
-token-level printer must equal its tokenizer on its own text (the lexical lemma, evaluated), and the
+token-level printer must equal its tokenizer on its own text (the lexical theorem `lexical_step`, re-evaluated), and the
 Lean fragment predicate `fragText` (guard of `roundtrip_partial`) is evaluated for every module:
 inside the fragment the real round trip must succeed; outside it, a failure is attributed to the
 excluded construct the predicate names.
@@ -25,20 +25,21 @@ LEVEL = "proof"
 LEVEL_TEXT = (
     "Lean theorems about an executable model of the IR text writer (ir.py __str__ methods + Writer), the tokenizer and the "
     "recursive-descent Reader, for ALL modules of an explicitly delimited decidable fragment (Model.IRFrag.fragText: unambiguous "
-    "names, ppci's constructor type checks, lexable identifiers, finite float constants, no inline asm): reading the token "
-    "sequence the writer emits succeeds and yields the module itself up to the order of phi inputs (a dictionary in ppci), "
-    "printing that module gives the same text character by character, and the phi values Spec.IR computes do not depend on that "
-    "order. Forward references (values, functions, blocks used before their definition) through typed placeholders are covered. "
-    "The step from characters to tokens is a hypothesis of the character-level theorem that is evaluated by the Lean tokenizer for "
-    "every module of every run. Each excluded construct has a Lean-proved counterexample replayed on the real code. The model is "
-    "tied to ppci by a differential run on every check (text equality, read-back equality).")
+    "names, ppci's constructor type checks, lexable identifiers, float constants whose text is one token, no inline asm), on "
+    "CHARACTERS: reading the printed text succeeds and yields the module itself up to the order of phi inputs (a dictionary in "
+    "ppci), printing that module gives the same text character by character, and that module behaves identically "
+    "(Spec.IR.exec gives the same outcome for every configuration, entry, arguments, external-call oracle and step budget; "
+    "lock-step simulation). The step from characters to tokens (maximal munch never merges or splits a token the writer "
+    "emits) is proved for every module of the fragment, so the theorem has no lexical hypothesis. Forward references through "
+    "typed placeholders are covered. Each excluded construct has a Lean-proved counterexample replayed on the real code. The "
+    "model is tied to ppci by a differential run on every check (text equality, read-back equality).")
 LEVEL_NOTE = (
-    "partial: the guard excludes inline asm, non-finite floats, values named like a global (name capture), non-identifier names; "
-    "tokenize(print m) = tokens(m) is evaluated per module, not proved for all modules; "
-    "float <-> decimal text is a parameter (CPython's str/float are the oracle, assumption float(str(x)) == x for finite x); "
-    "behavioural equality of the re-read module is proved only for the phi evaluation (the one place where the modules differ) "
-    "and otherwise compared on samples by the Spec.IR interpreter; model <-> source correspondence is sampled, not proved")
-TECHNIQUE = "Lean 4 proof (induction over modules / instruction lists with a placeholder invariant) over a hand model + differential correspondence"
+    "partial: the guard excludes inline asm, values named like a global (name capture) and non-identifier names (open findings); "
+    "float <-> decimal text stays a parameter pair fmt/fparse (CPython's str/float are the oracle): the fragment asks that "
+    "fmt b is ASCII and is ONE token when followed by ';' (decidable check, evaluated for every constant met), the theorem asks "
+    "fparse(fmt b) = b for the module's constants (CPython guarantee float(str(x)) == x, nan by bit pattern of the canonical nan); "
+    "model <-> source correspondence is sampled, not proved")
+TECHNIQUE = "Lean 4 proof (induction over modules / instruction lists with a placeholder invariant; compositional maximal-munch lemmas over the printer; lock-step simulation for behaviour) over a hand model + differential correspondence"
 RULE = ("modules: fixed corner corpus (every instruction kind/operator/type/constant class, forward references, 15 name-collision modules "
         "across functions, 7 blob types of equal size/different alignment in every type position, one module per finding), "
         "irgen modules under 6 configurations decorated with volatile flags, address initialisers, special constants, underscore names, "
@@ -50,12 +51,12 @@ TRUSTED = [
     "CPython str(float)/float(str) as oracle for float constants (passed to the model as a table)",
 ]
 ASSUMPTIONS = [
-    "float(str(x)) == x for every finite float x (CPython guarantee); str(x) of a finite float has the form d+.d+(e[+-]d+)? or d+e[+-]d+ (checked by the Lean predicate for every constant met)",
+    "float(str(x)) == x for every float x, compared by bit pattern (CPython guarantee; inf/nan are written as float 'inf' / float 'nan'); str(x) of a finite float has the form d+.d+(e[+-]d+)? or d+e[+-]d+ (checked by the Lean predicate floatTextOk for every constant met)",
     "ASCII text only (Python's \\d and \\s also match non-ASCII digits/blanks; the model answers Unsupported there)",
     "line-by-line tokenisation = whole-text tokenisation with newline as white space and no newline inside quoted strings",
 ]
 
-FINDING_OF = {"inline-asm": "irtext:inline-asm", "identifier": "irtext:identifier", "rol-keyword": "irtext:rol-keyword-operand"}
+FINDING_OF = {"inline-asm": "irtext:inline-asm", "identifier": "irtext:identifier"}
 # the two directions of name capture that the CURRENT readers exhibit (the Lean model predicts both)
 CAPTURE_A = "irtext:name-capture:value-hides-global-used-in-same-function"
 CAPTURE_B = "irtext:name-capture:later-value-captures-forward-reference"
